@@ -481,7 +481,7 @@ class Translator:
             raise Unsupported("branches of different type")
         env[var] = ta
         nl = "\n    " if s.orelse and len(s.orelse) == 1 and isinstance(s.orelse[0], ast.If) else " "
-        return "let %s := if %s then %s%selse %s" % (var, c, a, nl, b)
+        return "let %s := bif %s then %s%selse %s" % (var, c, a, nl, b)
 
     def collect_asserts(self, stmts, env, path, out):
         """asserts with their path condition (only for the hoistable prefix: tests over the parameters)"""
@@ -632,7 +632,7 @@ class Translator:
             if not self.terminates(s.body):
                 raise Unsupported("if-branch without return/raise in a function body")
             els = list(s.orelse) + (list(rest) if not self.terminates(s.orelse) else [])
-            return (pad + "if %s then\n" % c + self.mblock(s.body, env, ind + 1)
+            return (pad + "bif %s then\n" % c + self.mblock(s.body, env, ind + 1)
                     + pad + "else\n" + self.mblock(els, env, ind + 1))
         if isinstance(s, ast.For):
             # for v in ITER: if COND: return v     (then the rest is the not-found path)
